@@ -199,6 +199,41 @@ theorem put_ok_capped (ans : Obj → Node → Bool) (sched : List Node → List 
 private def okAll : Obj → Node → Bool := fun _ _ => true
 private def failing (bad : List Node) : Obj → Node → Bool := fun _ n => !bad.contains n
 
+/-- **No node holds two parts of a rule, in ANY run** (successful or not): under every interleaving of the part
+threads' critical sections and every answer oracle, two acknowledgements of `applyECRule` by one node are
+acknowledgements of the same part. This is what the forced interleavings of op `ecrace` check on the real
+`ecProgress` (oracles `ec-node-reserved-by-one-part-of-a-rule`, `ec-rule-parts-on-distinct-nodes-of-its-list`). -/
+theorem applyEC_node_holds_one_part (f : Nat → Node → Bool) (d p : Nat) (nodes : List Node) (picks : List Nat)
+    (hnd : nodes.Nodup) (k k' : Nat) (n : Node)
+    (h : (k, n) ∈ (applyEC f d p nodes picks).2) (h' : (k', n) ∈ (applyEC f d p nodes picks).2) : k = k' := by
+  unfold applyEC at h h'
+  simp only at h h'
+  generalize hs : ecRun (fun k i => f k (nodes.getD i 0)) nodes.length d (d + p) picks (ecInit (d + p) nodes.length) = s at h h'
+  obtain ⟨inv, _⟩ := ecRun_inv (fun k i => f k (nodes.getD i 0)) nodes.length d (d + p) picks _
+    (ecInit_inv _ (d + p) nodes.length)
+  rw [hs] at inv
+  obtain ⟨⟨a, i⟩, hm, he⟩ := List.mem_map.mp h
+  obtain ⟨⟨a', i'⟩, hm', he'⟩ := List.mem_map.mp h'
+  simp only [Prod.mk.injEq] at he he'
+  obtain ⟨rfl, hn⟩ := he
+  obtain ⟨rfl, hn'⟩ := he'
+  obtain ⟨ht, _⟩ := inv.acked _ hm
+  obtain ⟨ht', _⟩ := inv.acked _ hm'
+  have hlt : i < nodes.length := inv.tlt _ ht
+  have hlt' : i' < nodes.length := inv.tlt _ ht'
+  rw [getD_of_lt _ _ hlt] at hn
+  rw [getD_of_lt _ _ hlt'] at hn'
+  have : i = i' := (List.Nodup.getElem_inj_iff hnd).mp (hn.trans hn'.symm)
+  subst this
+  exact fst_unique _ _ _ _ inv.tnodup ht ht'
+
+/-- the contended reserve node: EC 1/1 over three nodes, the first nodes of both parts refuse, both parts go for
+node index 2 in lock-step; one part stays homeless and the PUT is not reported as done -/
+example : (saveObject (failing [1, 2]) id (fun _ => [0, 1, 0, 1, 0, 1, 1, 0, 1])
+    { typ := 0, rep := [], ec := [(1, 1)], lists := [[1, 2, 3]], loc := none, signer := true,
+      ecPart := none, ini := none }).2 ≠ .ok := by decide
+
+
 /-- two overlapping REP lists, node 2 fails: success with acknowledgements 1,3 and 3,4 (3 shared) -/
 example : (saveObject (failing [2]) id (fun _ => [])
     { typ := 0, rep := [2, 2], ec := [], lists := [[1, 2, 3], [3, 2, 4]], loc := some 3, signer := true,
